@@ -305,8 +305,13 @@ func (r restServerProtocol) addProtocolRequestHeaders(meta requestMeta, headers 
 func (r restServerProtocol) extractProtocolResponseHeaders(statusCode int, headers http.Header) (responseMeta, responseEndUnmarshaller, error) {
 	contentType := headers.Get("Content-Type")
 	if statusCode/100 != 2 {
+		// The error body may be compressed, too: we told the backend which
+		// encodings we accept.
+		compression := headers.Get("Content-Encoding")
+		headers.Del("Content-Encoding")
 		return responseMeta{
-				end: &responseEnd{httpCode: statusCode},
+				end:         &responseEnd{httpCode: statusCode},
+				compression: compression,
 			}, func(_ Codec, buf *bytes.Buffer, end *responseEnd) {
 				if err := httpErrorFromResponse(statusCode, contentType, buf); err != nil {
 					end.err = err
